@@ -4,6 +4,8 @@ package interp
 
 import (
 	"fmt"
+	"os"
+	"runtime/debug"
 	"sort"
 	"strings"
 
@@ -259,6 +261,9 @@ func (p *pathState) concretize(e *smt.Expr) uint64 {
 			continue
 		}
 		// need a model value
+		if os.Getenv("SYMGO_DEBUG_CONC") != "" {
+			fmt.Fprintf(os.Stderr, "CONCRETIZE %s\n%s\n", e.String(), debug.Stack())
+		}
 		r := p.solver.Check()
 		if r != smt.Sat {
 			p.end("abort", "concretize: path condition not sat: "+r.String())
